@@ -959,8 +959,39 @@ def run_threads(case):
                     obs['concurrent_calls_compared'] = obs.get('concurrent_calls_compared', 0) + 1
                     if bad and len(bad_log) < 6:
                         bad_log.append((nm, bad[:2]))
+    # second phase (round 6: the random mix above met a shared scratch buffer only once in a run on a loaded machine): all threads hammer ONE
+    # function at a time, half of them with the first argument set and half with the second, released together by a barrier
+    by_fn = {}
+    for w_ in work:
+        by_fn.setdefault(w_[0][:-1], []).append(w_)
+    focus = [v for v in by_fn.values() if len(v) == 2]
+
+    def hammer(k, barrier):
+        for pair in focus:
+            nm, c, a, ref = pair[k % 2]
+            try:
+                barrier.wait(timeout=60)
+            except threading.BrokenBarrierError:
+                return
+            for _ in range(12):
+                try:
+                    got = purity.flatten(c.fn(*[clone(x) for x in a], **c.kwargs))
+                    bad = purity.compare_flat(ref, got, ulp=0)
+                except Exception as e:
+                    bad = [f'{type(e).__name__}: {e}']
+                with lock:
+                    obs['concurrent_calls_compared'] = obs.get('concurrent_calls_compared', 0) + 1
+                    obs['focused_concurrent_calls'] = obs.get('focused_concurrent_calls', 0) + 1
+                    if bad and len(bad_log) < 6:
+                        bad_log.append((nm, bad[:2]))
     try:
         ts = [threading.Thread(target=worker, args=(k,)) for k in range(n_threads)]
+        for t in ts:
+            t.start()
+        for t in ts:
+            t.join()
+        barrier = threading.Barrier(n_threads)
+        ts = [threading.Thread(target=hammer, args=(k, barrier)) for k in range(n_threads)]
         for t in ts:
             t.start()
         for t in ts:
